@@ -77,8 +77,14 @@ func (vc *VC) inferPureBody(fn *ssa.Function) bool {
 				if !localRoot(ins.Map) {
 					return false
 				}
-			case *ssa.Send, *ssa.Select, *ssa.Go, *ssa.MakeClosure:
+			case *ssa.Send, *ssa.Select, *ssa.Go:
 				return false
+			case *ssa.MakeClosure:
+				// creating a closure only allocates; it is harmless if the closure's own body is pure
+				cf, ok := ins.Fn.(*ssa.Function)
+				if !ok || !vc.inferPure(cf) {
+					return false
+				}
 			case *ssa.RunDefers:
 			case *ssa.Defer:
 				if !vc.pureCallee(ins.Common()) {
